@@ -25,7 +25,15 @@ type seqT struct {
 	Kinds []string      `json:"kinds"` // per call: silence | cancel0 | cancel1 | accept0 | accept1
 	Idle  time.Duration `json:"idle"`  // pause between two calls
 	Cfg   int           `json:"cfg"`
-	Reuse bool          `json:"reuse"` // the caller re-submits one message object that it edits in place between the calls
+	Reuse bool          `json:"reuse"`          // the caller re-submits one message object that it edits in place between the calls
+	Same  bool          `json:"same,omitempty"` // every call sends the same message (same transaction id) and the server's answer is the same octets every time
+}
+
+func respNonceSeq(sc seqT, i int) int {
+	if sc.Same {
+		return 100
+	}
+	return 100 + i
 }
 
 type callObs struct {
@@ -53,6 +61,10 @@ func runSeq(t *testing.T, sc seqT) (obs []callObs, wants [][]byte) {
 			if sc.Reuse {
 				shared.Edit(xid, byte(i+1))
 				req = shared
+			}
+			if sc.Same {
+				xid = 0x00a1b200
+				req = f.Request(xid, 3)
 			}
 			wants = append(wants, req.Bytes())
 			var o callObs
@@ -85,7 +97,7 @@ func runSeq(t *testing.T, sc seqT) (obs []callObs, wants [][]byte) {
 				}
 				time.Sleep(at)
 				synctest.Wait()
-				conn.Inject(sconn.Datagram{B: f.Datagram("matching", xid, 100+i, f.AcceptType()), From: dests[0], Nonce: 100 + i, Class: "matching"})
+				conn.Inject(sconn.Datagram{B: f.Datagram("matching", xid, respNonceSeq(sc, i), f.AcceptType()), From: dests[0], Nonce: respNonceSeq(sc, i), Class: "matching"})
 			}
 			synctest.Wait()
 			if !o.returned {
@@ -187,8 +199,8 @@ func judgeSeq(r *mon.Rec, t *testing.T, sc seqT) {
 				return
 			}
 		case "ok":
-			if o.err != nil || !o.gotMsg || o.nonce != 100+i {
-				bad("response-not-returned", "want the response with nonce %d, got err=%v msg=%v nonce=%d", 100+i, o.err, o.gotMsg, o.nonce)
+			if o.err != nil || !o.gotMsg || o.nonce != respNonceSeq(sc, i) {
+				bad("response-not-returned", "want the response with nonce %d, got err=%v msg=%v nonce=%d", respNonceSeq(sc, i), o.err, o.gotMsg, o.nonce)
 				return
 			}
 		}
@@ -206,12 +218,15 @@ func seqGrid(quick bool) []seqT {
 			for n := 1; n <= 3; n++ {
 				for _, a := range kinds {
 					for _, b := range kinds {
-						out = append(out, seqT{true, fm, T, n, []string{a, b}, 0, len(out) % cli.NCfg, len(out)%2 == 0})
+						out = append(out, seqT{true, fm, T, n, []string{a, b}, 0, len(out) % cli.NCfg, len(out)%2 == 0, false})
+						if a[0] == 'a' && b[0] == 'a' { // answered calls: once more with the same message and the same answer every time
+							out = append(out, seqT{true, fm, T, n, []string{a, b, a}, []time.Duration{0, T}[len(out)%2], len(out) % cli.NCfg, false, true})
+						}
 						for _, c := range kinds {
 							if quick && (len(a)+len(b)+len(c)+n)%3 != 0 {
 								continue
 							}
-							out = append(out, seqT{true, fm, T, n, []string{a, b, c}, []time.Duration{0, T, 7 * T}[len(out)%3], len(out) % cli.NCfg, len(out)%2 == 0})
+							out = append(out, seqT{true, fm, T, n, []string{a, b, c}, []time.Duration{0, T, 7 * T}[len(out)%3], len(out) % cli.NCfg, len(out)%2 == 0, false})
 						}
 					}
 				}
